@@ -333,8 +333,16 @@ def deferred(make, right):
         return right
 
 
-def _build(M, w, **kw):
+def _build(M, w, force=None, **kw):
+    """force: None (content-determined history), 'adopt' or 'deferred' (the instance takes over its state, see _adopted / deferred)"""
     order = 0
+    if force is not None:
+        import copy as _copy
+        right = M(wave=_copy.deepcopy(w), **kw)
+        wc = _copy.deepcopy(w)
+        mod = _adopted(M, w, right, **kw) if force == 'adopt' else deferred(lambda: M(wave=wc, **kw), right)
+        _scribble(w)
+        return mod
     if not isinstance(w, str) and os.environ.get('VERIF_NO_TWINS') != '1':
         try:
             order = 1 + _hashlib.sha1(repr([np.asarray(f).tolist() for f in w]).encode()).digest()[2] % 3     # 1: twin first, 2: twin after, 3: the instance adopts its state from another one
